@@ -63,7 +63,7 @@ def atoms(feat):
     if "code" in feat:
         a += [ph.map(lambda s: f"`{s}`"), st.sampled_from(["`a  b`", "`` `x` ``",] + (["``a`b``", "`` ` ``"] if "code_inner_tick" in feat else []) + [ "`*not em*`", "`<b>`", "`{% t %}`", "`|`", "`it's \"q\"...`", "`-`", "`1.`"])]
     if "link" in feat:
-        url = st.sampled_from(["http://example.com/a_b*c", "https://x.y/z?q=1&r=2", "/rel/path", "#frag", "url"] + (["/two", "http://ref.one/x", "http://three.x"] if "refdef" in feat else []) + (["<http://a b.c>", "a(b", "<a)b>"] if "link_angle" in feat else []))
+        url = st.sampled_from(["http://example.com/a_b*c", "https://x.y/z?q=1&r=2", "/rel/path", "#frag", "url"] + (["/two", "http://ref.one/x", "http://three.x"] if "refdef" in feat else []) + (["<http://a b.c>", "a(b", "<a)b>", "<a)b(c>", "a\\)b\\(c", "<>", "a(b)c", "<a(b>"] if "link_angle" in feat else []))
         title = st.sampled_from(["", "", ' "Ref One"', ' "Title here"', " 'single q'", ' (paren t)', ' "it\'s"', ' "a \\"q\\" b"'])
         a += [st.tuples(ph, url, title).map(lambda t: f"[{t[0]}]({t[1]}{t[2]})"),
               st.tuples(ph, url, title).map(lambda t: f"![{t[0]}]({t[1]}{t[2]})"),
